@@ -28,6 +28,8 @@
  * - `A set K V fail` / `A replace K V fail` / `A get K fail`: the call on a key that has no native key yet, with the lazy
  *   pthread_key_create failing (N= shows `kcfail`); `A current fail2` / `fail3`: p_uthread_current of a thread without a stored
  *   handle with the next 2 / 3 pthread_key_create calls failing (NULL; the PUThreadBase block takes a handle id as above).
+ * - `T start fail2`: the proxy of T runs with both of its lazy pthread_key_create calls failing (nothing stored in the library
+ *   slot: puthread.c `is_stored == FALSE`); `T return` then includes the proxy's own p_uthread_unref; p_uthread_exit in T returns.
  * - `A join H fail`: p_uthread_join with the native pthread_join reporting an error (ESRCH, nothing is joined).
  * - `A misc` calls p_uthread_ideal_count / p_uthread_yield / p_uthread_current_id in thread A (answer `ok`).
  * - `A prio H P` calls p_uthread_set_priority on a library-created thread that has not ended (no effect on handles).
@@ -156,6 +158,7 @@ typedef struct {
 } Op;
 typedef struct {
 	int state, foreign, round, pending, arm_cas, at_cas, cas_result;
+	int unstored;                                   /* started by `start fail2`: the library slot is empty, the proxy holds the reference */
 	int joining, join_h;                            /* inside the p_uthread_join of `jbegin` (2: it came back early) */
 	volatile int early;                             /* `create … x`: 1 = runs into the proxy at once, 2 = reached the spinlock */
 	pthread_t self;
@@ -427,7 +430,7 @@ static void exec_op (Slot *s) {
 		snprintf (o->res, 48, "H%d", tag_handle (p, my_slot, 0, 0, 0));
 		break; }
 	case O_EXIT:
-		if (s->foreign || my_slot == 0) {
+		if (s->foreign || my_slot == 0 || s->unstored) {
 			PUThread *p = p_uthread_current ();
 			tag_handle (p, my_slot, 0, 0, 0);
 			p_uthread_exit ((pint) o->code);        /* returns: not one of ours */
@@ -604,6 +607,15 @@ static void run_case (char **lines, int n) {
 			dispatch (a, &o);
 			if (o.cmode == 1) { Slot *c = &slots[last_created_slot]; swait (&c->done); c->state = RUNNING; kpub[0] = 1; }
 			answer (o.res, "", 1);
+		} else if (!strcmp (op, "start") && nw == 3 && !strcmp (w[2], "fail2")) {
+			/* the proxy's p_uthread_set_local and its read-back both fail to make the library key's native key */
+			int pend0 = 0;
+			for (int t = 1; t < nextT; t++) if (slots[t].pending && (slots[t].pend_op.named || slots[t].pend_op.kind == O_CURRENT)) pend0 = 1;
+			if (s->state != CREATED || kpub[0] || pend0) { bad (); continue; }
+			fail_kc = 2;
+			sem_post (&s->start_gate); swait (&s->done); s->state = RUNNING; s->unstored = 1;
+			if (fail_kc) DIE ("scripted pthread_key_create failures were not consumed by the proxy");
+			answer ("-", "", 1);
 		} else if (!strcmp (op, "start") && nw == 2) {
 			if (s->state != CREATED) { bad (); continue; }
 			sem_post (&s->start_gate); swait (&s->done); s->state = RUNNING; kpub[0] = 1;
@@ -643,11 +655,12 @@ static void run_case (char **lines, int n) {
 			if (!running) { bad (); continue; }
 			o.kind = O_EXIT; o.code = strtol (w[2], NULL, 10);
 			dispatch (a, &o); kpub[0] = 1;                       /* library thread: `done` comes from the gate destructor */
-			if (!(s->foreign || a == 0)) { s->state = FINISHED; strcpy (o.res, "-"); }
+			if (!(s->foreign || a == 0 || s->unstored)) { s->state = FINISHED; strcpy (o.res, "-"); }
 			answer (o.res, "", 1);
 		} else if (!strcmp (op, "return") && nw == 2) {
 			if (!running || a == 0) { bad (); continue; }
 			o.kind = O_RETURN; s->op = o; sem_post (&s->cmd); swait (&s->done); s->state = FINISHED;
+			if (s->unstored) for (int h = 0; h < nextH; h++) if (hthread[h] == a && hours[h]) hthreadref[h] = 0;   /* the proxy's unref */
 			answer ("-", "", 1);
 		} else if (!strcmp (op, "end") && nw == 2) {
 			if (s->state != FINISHED) { bad (); continue; }
